@@ -41,6 +41,8 @@ def check(chk, fx):
     from .. import golden, goldenreg
     golden.group(chk, fx, "REGEXFE", "reference summaries of the regex front end (what the pattern lexer accepts, how "
                                      "characters are decoded)", goldenreg.GROUPS["REGEXFE"])
+    from .. import termrules
+    termrules.termapi(chk, fx)        # ids / names / data the parser and the lexer builder read
 
 
 def _optional_paths(chk, f, rule, name):
